@@ -17,6 +17,7 @@ import (
 	"bytes"
 	"encoding/json"
 	"errors"
+	"fmt"
 	"io"
 	"os"
 	"path"
@@ -66,7 +67,14 @@ func New(options ...func(pushers.Channel) error) (pushers.Channel, error) {
 		fc.File = filepath.Join(pwd, fc.File)
 	}
 
-	go fc.writeLoop()
+	// open the destination here: if it cannot be opened the channel is not created, instead of
+	// starting a writer that gives up and leaves every Send blocked on the request channel
+	dest, err := OpenRotateFile(fc.File, fc.Mode, fc.MaxSize)
+	if err != nil {
+		return nil, fmt.Errorf("File channel: failed to create destination file: %s", err)
+	}
+
+	go fc.writeLoop(dest)
 
 	return &fc, nil
 }
@@ -111,13 +119,7 @@ func (f *FileBackend) Send(message event.Event) {
 }
 
 // syncLoop handles configuration of the giving loop for writing to file.
-func (f *FileBackend) writeLoop() {
-	dest, err := OpenRotateFile(f.File, f.Mode, f.MaxSize)
-	if err != nil {
-		log.Errorf("Failed create destination file: %s", err)
-		return
-	}
-
+func (f *FileBackend) writeLoop(dest *rotateFile) {
 	defer dest.Close()
 
 	var buf bytes.Buffer
